@@ -188,7 +188,20 @@ func init() {
 		}
 		if busy() {
 			in.block(g, nil, "vrt.Quiesce", func() bool { return !busy() })
+			return nil, nil
 		}
+		// the harness observes the quiescent state: treated as synchronised with everything so far
+		for _, o := range in.gs {
+			in.raceJoinGoroutine(g, o)
+		}
+		return nil, nil
+	})
+	reg(vrtPath+"Tick", func(in *Interp, g *Goroutine, fn *ssa.Function, args []Value) (Value, *tailCall) {
+		in.tickSeq++
+		return in.tt.Const(64, uint64(in.tickSeq)), nil
+	})
+	reg(vrtPath+"RaceDetect", func(in *Interp, g *Goroutine, fn *ssa.Function, args []Value) (Value, *tailCall) {
+		in.raceEnable(args[0].(*Term).IsTrue())
 		return nil, nil
 	})
 	reg(vrtPath+"Concretize", func(in *Interp, g *Goroutine, fn *ssa.Function, args []Value) (Value, *tailCall) {
@@ -230,6 +243,7 @@ func init() {
 			return nil, nil
 		}
 		in.setCell(p.obj, p.off, in.tt.Const(32, 1))
+		in.raceAcquire(g, raceKey{p.obj, p.off, 0})
 		return nil, nil
 	})
 	reg("(*sync.Mutex).TryLock", func(in *Interp, g *Goroutine, fn *ssa.Function, args []Value) (Value, *tailCall) {
@@ -239,6 +253,7 @@ func init() {
 			return in.tt.False, nil
 		}
 		in.setCell(p.obj, p.off, in.tt.Const(32, 1))
+		in.raceAcquire(g, raceKey{p.obj, p.off, 0})
 		return in.tt.True, nil
 	})
 	reg("(*sync.Mutex).Unlock", func(in *Interp, g *Goroutine, fn *ssa.Function, args []Value) (Value, *tailCall) {
@@ -247,6 +262,7 @@ func init() {
 		if st == nil || st.cv == 0 {
 			in.goPanic("fatal error: sync: unlock of unlocked mutex")
 		}
+		in.raceRelease(g, raceKey{p.obj, p.off, 0})
 		in.setCell(p.obj, p.off, in.tt.Const(32, 0))
 		return nil, nil
 	})
@@ -268,6 +284,8 @@ func init() {
 			return nil, nil
 		}
 		in.setCell(o, off, in.tt.Const(32, 1))
+		in.raceAcquire(g, raceKey{o, off, 0})
+		in.raceAcquire(g, raceKey{o, off, 1})
 		return nil, nil
 	})
 	reg("(*sync.RWMutex).Unlock", func(in *Interp, g *Goroutine, fn *ssa.Function, args []Value) (Value, *tailCall) {
@@ -276,6 +294,7 @@ func init() {
 		if wv == nil || wv.cv == 0 {
 			in.goPanic("fatal error: sync: Unlock of unlocked RWMutex")
 		}
+		in.raceRelease(g, raceKey{o, off, 0})
 		in.setCell(o, off, in.tt.Const(32, 0))
 		return nil, nil
 	})
@@ -295,6 +314,7 @@ func init() {
 			n = rv.cv
 		}
 		in.setCell(o, off+1, in.tt.Const(32, n+1))
+		in.raceAcquire(g, raceKey{o, off, 0})
 		return nil, nil
 	})
 	reg("(*sync.RWMutex).RUnlock", func(in *Interp, g *Goroutine, fn *ssa.Function, args []Value) (Value, *tailCall) {
@@ -303,6 +323,7 @@ func init() {
 		if rv == nil || rv.cv == 0 {
 			in.goPanic("fatal error: sync: RUnlock of unlocked RWMutex")
 		}
+		in.raceReleaseMerge(g, raceKey{o, off, 1})
 		in.setCell(o, off+1, in.tt.Const(32, rv.cv-1))
 		return nil, nil
 	})
@@ -322,6 +343,9 @@ func init() {
 		if n < 0 {
 			in.goPanic("sync: negative WaitGroup counter")
 		}
+		if d < 0 {
+			in.raceReleaseMerge(g, raceKey{p.obj, c, 0})
+		}
 		in.setCell(p.obj, c, in.tt.Const(64, uint64(n)))
 		return nil, nil
 	})
@@ -337,6 +361,7 @@ func init() {
 		if n < 0 {
 			in.goPanic("sync: negative WaitGroup counter")
 		}
+		in.raceReleaseMerge(g, raceKey{p.obj, c, 0})
 		in.setCell(p.obj, c, in.tt.Const(64, uint64(n)))
 		return nil, nil
 	})
@@ -350,7 +375,9 @@ func init() {
 				t, _ := obj.cells[c].(*Term)
 				return t == nil || t.w != 64 || t.cv == 0
 			})
+			return nil, nil
 		}
+		in.raceAcquire(g, raceKey{p.obj, c, 0})
 		return nil, nil
 	})
 	reg("(*sync.WaitGroup).Go", func(in *Interp, g *Goroutine, fn *ssa.Function, args []Value) (Value, *tailCall) {
@@ -369,6 +396,7 @@ func init() {
 		_ = wrapper
 		ng := in.spawnWithDone(f, nil, func() {
 			t, _ := obj.cells[c].(*Term)
+			in.raceReleaseMerge(in.cur, raceKey{obj, c, 0})
 			in.setCell(obj, c, in.tt.Const(64, t.cv-1))
 		})
 		_ = ng
@@ -378,6 +406,15 @@ func init() {
 		p := args[0].(PtrV)
 		st, _ := p.obj.cells[p.off].(*Term)
 		if st != nil && st.IsConst() && st.cv != 0 {
+			// conservative: everything the goroutine that ran (or is running) f has done so far
+			// happens before this return
+			if r, ok := in.race.sync[raceKey{p.obj, p.off, 3}]; ok && in.raceActive(g) {
+				for _, o := range in.gs {
+					if o.id == int(r.get(0)) {
+						in.raceJoinGoroutine(g, o)
+					}
+				}
+			}
 			return nil, nil
 		}
 		w := uint8(32)
@@ -385,6 +422,9 @@ func init() {
 			w = st.w
 		}
 		in.setCell(p.obj, p.off, in.tt.Const(w, 1))
+		if in.raceActive(g) {
+			in.race.sync[raceKey{p.obj, p.off, 3}] = vclock{int32(g.id)}
+		}
 		return nil, &tailCall{fn: args[1].(*FuncV)}
 	})
 	reg("(*sync.Pool).Get", func(in *Interp, g *Goroutine, fn *ssa.Function, args []Value) (Value, *tailCall) {
@@ -693,6 +733,7 @@ func wgCell(in *Interp, p PtrV) int {
 func (in *Interp) spawnWithDone(f *FuncV, args []Value, done func()) *Goroutine {
 	in.gseq++
 	g := &Goroutine{id: in.gseq}
+	in.raceFork(in.cur, g)
 	in.gs = append(in.gs, g)
 	in.invoke(g, f, args, -1, func(Value) { done(); g.done = len(g.stack) == 0 }, false)
 	if len(g.stack) == 0 {
